@@ -18,6 +18,9 @@ def configs(tier):
             {"mod": MOD, "cls": "StreamModel", "opts": {"pairs": False}, "max_depth": 4,
              "params": dict(size=0, senders=["A", "B"], receivers=["C"], closing=True,
                             max_items=2, nowait=False)},
+            {"mod": MOD, "cls": "StreamModel", "opts": o, "max_depth": 4,
+             "params": dict(size=1, senders=["A"], receivers=["B", "C"], closing=True,
+                            max_items=1, closers=["A"], cloning=False)},
         ]
     return [
         {"mod": MOD, "cls": "StreamModel", "opts": {"pairs": False}, "max_depth": 7,
